@@ -313,6 +313,18 @@ func main() {
 		replayMain(os.Args[2])
 		return
 	}
+	if len(os.Args) > 2 && os.Args[1] == "plan" { // print the size of the enumeration of a tier and exit
+		pl := buildPlan(os.Args[2])
+		var n int64
+		for _, b := range pl.batches {
+			n += int64(b.hi - b.lo)
+		}
+		for fi, f := range fnTable {
+			fmt.Printf("%-26s params=%d tuples/state=%d\n", f.name, len(f.params), len(pl.tup[fi]))
+		}
+		fmt.Printf("tier=%s batches=%d calls=%d\n", os.Args[2], len(pl.batches), n)
+		return
+	}
 	run := fw.Start("C15", "exploration")
 	if err := checkTable(); err != nil {
 		fw.Fatalf("signature table: %v", err)
